@@ -206,7 +206,7 @@ fn replay_big(v: &serde_json::Value) -> Result<Outcome, String> {
 
 pub fn def() -> PropertyDef {
     PropertyDef {
-        fuzz_targets: &[],
+        fuzz_targets: &["c01_scenario"],
         id: "C01",
         level: "exploration",
         rule: "valid A/V call histories (4 codecs x none/AAC(6)/Opus x fast-start x metadata, B-frame reordering, 3/4-byte start codes, \
